@@ -214,7 +214,7 @@ package sev
 //@   assigns measurement.Digest
 //@   modifies ldN, ldType, ldGpa, ldData
 //@   sweep[C08]
-//@   atcall[C04] ZeroContentUpdate requires p1 == section.Address && p2 == section.Length && p3 == ite(section.Kind == 1, 4, ite(section.Kind == 2, 5, ite(section.Kind == 3, 6, 3))) && 1 <= section.Kind && section.Kind <= 4
+//@   atcall ZeroContentUpdate requires[C04] p1 == section.Address && p2 == section.Length && p3 == ite(section.Kind == 1, 4, ite(section.Kind == 2, 5, ite(section.Kind == 3, 6, 3))) && 1 <= section.Kind && section.Kind <= 4
 //@   ensures[C04] ldN >= old(ldN) && forall(j, Int, j < old(ldN) ==> ldType[j] == old(ldType)[j] && ldGpa[j] == old(ldGpa)[j] && ldData[j] == old(ldData)[j])
 //@   ensures[C04] forall(j, Int, old(ldN) <= j && j < ldN ==> 3 <= ldType[j] && ldType[j] <= 6 && ldData[j] == noData())
 //@   loop 1 invariant ldN >= old(ldN) && forall(j, Int, j < old(ldN) ==> ldType[j] == old(ldType)[j] && ldGpa[j] == old(ldGpa)[j] && ldData[j] == old(ldData)[j])
@@ -241,7 +241,7 @@ package sev
 //@   modifies ldN, ldType, ldGpa, ldData
 //@   sweep[C08]
 //@   alloc 8192 * len(expectedVmsas) + 4096
-//@   atcall[C04] Update requires p1 == ite(opts.Product == 1, 281474976706560, 4503599627366400) && p3 == 2 && len(p2) == 4096 && le64(p2, 376) == vmsa.Rip && vmsa.Cs != nil && le64(p2, 24) == vmsa.Cs.Base && le64(p2, 1000) == vmsa.Xcr0 && le64(p2, 944) == vmsa.SevFeatures
+//@   atcall Update requires[C04] p1 == ite(opts.Product == 1, 281474976706560, 4503599627366400) && p3 == 2 && len(p2) == 4096 && le64(p2, 376) == vmsa.Rip && vmsa.Cs != nil && le64(p2, 24) == vmsa.Cs.Base && le64(p2, 1000) == vmsa.Xcr0 && le64(p2, 944) == vmsa.SevFeatures
 //@   ensures[C04] err == nil ==> ldN == old(ldN) + len(expectedVmsas)
 //@   ensures[C04] err == nil ==> forall(j, Int, old(ldN) <= j && j < ldN ==> ldType[j] == 2 && ldGpa[j] == ite(old(opts.Product) == 1, 281474976706560, 4503599627366400))
 //@   ensures[C04] forall(j, Int, j < old(ldN) ==> ldType[j] == old(ldType)[j] && ldGpa[j] == old(ldGpa)[j] && ldData[j] == old(ldData)[j])
